@@ -3258,3 +3258,49 @@ func stateKeyInjective(c *Check, a *Anchors) {
 	}
 	c.Floor("state-key-injective", n, 2)
 }
+
+// globKeepsOtherMatches (C05): the fingerprint covers every file a pattern matches that can be read.
+func globKeepsOtherMatches(c *Check, a *Anchors) {
+	c.Rule("glob-keeps-other-matches", "in the per-match loop of fingerprint.glob a failed os.Stat of ONE expanded name has a path that skips that name (continue) instead of always returning the error: Globs reacts to an error by dropping the whole pattern, so one dangling symlink among the matches would remove every file of the pattern from the fingerprint and later edits to them would go unnoticed")
+	fb := c.P.Func(PkgFingerprint, "", "glob")
+	if fb == nil {
+		c.Errorf("glob-keeps-other-matches: fingerprint.glob not found")
+		return
+	}
+	c.Fn(fb)
+	info := fb.Info()
+	n := 0
+	inspectBody(fb.Body, func(nd ast.Node) bool {
+		r, ok := nd.(*ast.RangeStmt)
+		if !ok {
+			return true
+		}
+		inspectBody(r.Body, func(m ast.Node) bool {
+			ifs, ok := m.(*ast.IfStmt)
+			if !ok {
+				return true
+			}
+			be, ok := ast.Unparen(ifs.Cond).(*ast.BinaryExpr)
+			if !ok || be.Op != token.NEQ || !isNilLit(info, be.Y) || !isErrorType(typeOf(info, be.X)) {
+				return true
+			}
+			returns := len(returnsOf(ifs.Body)) > 0
+			if !returns {
+				return true
+			}
+			n++
+			skips := false
+			ast.Inspect(ifs.Body, func(k ast.Node) bool {
+				if br, ok := k.(*ast.BranchStmt); ok && br.Tok == token.CONTINUE {
+					skips = true
+				}
+				return true
+			})
+			c.Decide(skips, "glob-keeps-other-matches", fmt.Sprintf("stat-error#%d@%s", n, fnDisplay(fb)), ifs.Pos(), "an unreadable match can be skipped",
+				"every failure to stat one expanded name makes glob return an error, and Globs then drops the whole pattern: one dangling symlink removes all files of the pattern from the fingerprint")
+			return true
+		})
+		return true
+	})
+	c.Floor("glob-keeps-other-matches", n, 1)
+}
